@@ -2,7 +2,11 @@
 import random
 from vf import Case
 
+from gen import bytebuf
+
 ID = "C18"
+GEN = [bytebuf.gen]
+tie_modules = bytebuf.tie_modules     # one obligation module per function of byte-buffer.c that the translator delivered
 DRIVER = "drv_buffers"
 HARNESS = "h_buffers"
 QUICK_LEVEL = "thorough"      # the larger case set costs only seconds
@@ -15,13 +19,16 @@ RULE = ("explicit-state exploration over the abstract state (size, used, offset)
 KEEP_PREFIX = 1
 EXHAUSTIVE = {"quick": False, "thorough": False}
 ASSUMPTIONS = [
-    "the model (lean/Ufw/Model/ByteBuffer.lean) is a hand transcription of src/byte-buffer.c; it is tied to the code by "
-    "running both on the generated cases (ASan+UBSan build, exact-size heap blocks)",
+    "the model (lean/Ufw/Model/ByteBuffer.lean) is a hand transcription of src/byte-buffer.c; it is tied to the code twice: every function of the file is "
+    "translated from clang's AST into a Lean definition on every run (tools/gen/bytebuf.py -> Gen/ByteBuf.lean) and proved equal to the model "
+    "(Tie/ByteBuf/*.lean; prelude Tie/ByteBufPre.lean gives the meaning of size_t arithmetic and of memcpy/memmove/memset), and both are run on the "
+    "generated cases (ASan+UBSan build, exact-size heap blocks)",
     "size_t arithmetic does not wrap for operand lengths < 2^63 under offset <= used <= size (theorem inv_run)",
     "memcpy/memmove/memset behave as specified by ISO C",
 ]
 TRUSTED = ["correspondence harness harness/h_buffers.c + tools/lib/vf.py (comparison of return code, size/used/offset, "
-           "filled octets, delivered octets; unread octets and free space against the FIFO spec)"]
+           "filled octets, delivered octets; unread octets and free space against the FIFO spec)",
+           "translator tools/gen/bytebuf.py + prelude lean/Ufw/Tie/ByteBufPre.lean (meaning of size_t arithmetic, return codes, memcpy/memmove/memset)"]
 
 
 def theorem_for(d):
@@ -158,7 +165,7 @@ def nontrivial(case, lines):
     return any(l.startswith("ok") for l in lines[1:])
 
 DESIGN_REF = "DESIGN.md section 0.2 (as built) and section 8, C18"
-TECHNIQUE = "Lean 4 refinement proof (byte buffer model refines a list FIFO for every operation history) + differential correspondence of model vs. C on explored states"
+TECHNIQUE = "Lean 4 refinement proof (byte buffer model refines a list FIFO for every operation history); the model is tied to the source by translation (every function of byte-buffer.c translated from clang's AST on every run and proved equal to the model) and by differential correspondence of model vs. C on explored states"
 LEVEL_TEXT = ("Machine-checked proof: for every operation list and every buffer satisfying the set-up contract the Lean model of "
               "byte-buffer.c keeps offset <= used <= size, never indexes outside its size octets and is observationally equal to a "
               "list FIFO (induction over the history, theorem run_refines). The model is tied to the C code by executing both on all "
